@@ -279,7 +279,11 @@ func ints(xs []int) string {
 }
 
 func coqLimit(k *LimitCase) string {
-	return "(mk_limit " + c.Z(k.Total) + " " + zu(k.RatioBits) + " " + c.Z(int64(k.N)) + " " + c.Z(int64(k.Passed)) + ")"
+	h := int64(-1)
+	if k.PctE4 >= 0 && k.PctE4%100 == 0 && k.RatioBits == ratioBitsOfPct(k.PctE4) {
+		h = k.PctE4 / 100
+	}
+	return "(mk_limit " + c.Z(k.Total) + " " + zu(k.RatioBits) + " " + c.Z(int64(k.N)) + " " + c.Z(int64(k.Passed)) + " " + c.Z(h) + ")"
 }
 
 // strings are bound once per case (let s0 : list Z := ... in) and referred to by
@@ -550,6 +554,16 @@ func genLimit(o *c.Out) {
 		}
 		raws = append(raws, b)
 	}
+	// a few billionths, just below / at / just above a half: only a count of the order
+	// of 10^9 makes the rounding of the ratio itself visible
+	for kk := 0; kk <= 12; kk++ {
+		for d := -1; d <= 1; d++ {
+			b := math.Float64bits((float64(kk)+0.5)/1e9) + uint64(d)
+			for _, total := range []int64{1_000_000_000, 3_000_000_000, 1_000_000_001} {
+				runLimit(o, LimitCase{Total: total, PctE4: -1, RatioBits: b, N: 45})
+			}
+		}
+	}
 	for _, b := range raws {
 		total := int64(c.Pick(r, []int{0, 1, 3, 10, 100, 1000, 12345}))
 		runLimit(o, LimitCase{Total: total, PctE4: -1, RatioBits: b, N: 40})
@@ -811,67 +825,81 @@ func genPluginCase(r *c.Rng) PluginCase {
 
 // concurrent callers on the same keys at a fixed instant (monitor only): the number
 // of requests that proceed is exactly min(calls, share) for every key
+type StressCase struct {
+	Now      int64     `json:"now_ns"`
+	Profiles []Profile `json:"profiles"` // one key per profile
+	Workers  int       `json:"workers"`
+	Per      int       `json:"calls_per_worker"`
+	Passed   []int64   `json:"proceeded"`
+}
+
+func runStress(o *c.Out, k StressCase, round int) {
+	clk := &fakeClock{now: k.Now}
+	st := newState(clk)
+	nkeys := len(k.Profiles)
+	k.Passed = make([]int64, nkeys)
+	var mu sync.Mutex
+	var wg sync.WaitGroup
+	for w := 0; w < k.Workers; w++ {
+		wg.Add(1)
+		go func(w int) {
+			defer wg.Done()
+			local := make([]int64, nkeys)
+			for i := 0; i < k.Per; i++ {
+				ki := (w + i) % nkeys
+				if tryInc(st, Key{Limiter: "s", Grouped: true, Group: strconv.Itoa(ki)}, k.Profiles[ki]) == 1 {
+					local[ki]++
+				}
+			}
+			mu.Lock()
+			for i := range local {
+				k.Passed[i] += local[i]
+			}
+			mu.Unlock()
+		}(w)
+	}
+	wg.Wait()
+	o.Case0(k, true)
+	o.MonitorChecked(1)
+	o.Count("stress-rounds")
+	for ki := 0; ki < nkeys; ki++ {
+		calls := int64(0)
+		for w := 0; w < k.Workers; w++ {
+			for i := 0; i < k.Per; i++ {
+				if (w+i)%nkeys == ki {
+					calls++
+				}
+			}
+		}
+		want := exactShare(k.Profiles[ki].Allowed, k.Profiles[ki].PctE4)
+		if calls < want {
+			want = calls
+		}
+		if k.Passed[ki] != want {
+			sig := "unjustified-rejection:limit-concurrent"
+			if k.Passed[ki] > want {
+				sig = "over-admission:limit-concurrent"
+			}
+			o.Hit(c.Hit{Suite: "stress", Index: round, Signature: sig,
+				Demanded: fmt.Sprintf("exactly %d of %d concurrent requests of group %d proceed in one window (allowed %d, %s%%)",
+					want, calls, ki, k.Profiles[ki].Allowed, pctString(k.Profiles[ki].PctE4)),
+				Observed: fmt.Sprintf("%d proceeded", k.Passed[ki]),
+				Case:     k})
+		}
+	}
+}
+
 func stress(o *c.Out) {
 	r := o.Rng.Fork(7)
 	for round := 0; round < o.Scale(20, 200, 100); round++ {
-		clk := &fakeClock{now: 1_700_000_000*sec + int64(r.Intn(int(sec)))}
-		st := newState(clk)
+		k := StressCase{Now: 1_700_000_000*sec + int64(r.Intn(int(sec))), Workers: 8, Per: 40}
 		nkeys := r.Range(1, 3)
-		type res struct{ pass int64 }
-		profs := make([]Profile, nkeys)
-		passed := make([]int64, nkeys)
-		var mu sync.Mutex
-		var wg sync.WaitGroup
-		workers, per := 8, 40
 		for ki := 0; ki < nkeys; ki++ {
 			e4 := c.Pick(r, []int64{70000, 100000, 250000, 500000, 1000000})
-			profs[ki] = Profile{W: sec, Allowed: int64(c.Pick(r, []int{10, 100, 150, 1000})), PctE4: e4, RatioBits: ratioBitsOfPct(e4)}
+			k.Profiles = append(k.Profiles, Profile{W: sec, Allowed: int64(c.Pick(r, []int{10, 100, 150, 1000})),
+				PctE4: e4, RatioBits: ratioBitsOfPct(e4)})
 		}
-		for w := 0; w < workers; w++ {
-			wg.Add(1)
-			go func(w int) {
-				defer wg.Done()
-				local := make([]int64, nkeys)
-				for i := 0; i < per; i++ {
-					ki := (w + i) % nkeys
-					if tryInc(st, Key{Limiter: "s", Grouped: true, Group: strconv.Itoa(ki)}, profs[ki]) == 1 {
-						local[ki]++
-					}
-				}
-				mu.Lock()
-				for i := range local {
-					passed[i] += local[i]
-				}
-				mu.Unlock()
-			}(w)
-		}
-		wg.Wait()
-		o.MonitorChecked(1)
-		o.Count("stress-rounds")
-		for ki := 0; ki < nkeys; ki++ {
-			calls := int64(0)
-			for w := 0; w < workers; w++ {
-				for i := 0; i < per; i++ {
-					if (w+i)%nkeys == ki {
-						calls++
-					}
-				}
-			}
-			want := exactShare(profs[ki].Allowed, profs[ki].PctE4)
-			if calls < want {
-				want = calls
-			}
-			if passed[ki] != want {
-				sig := "unjustified-rejection:limit-concurrent"
-				if passed[ki] > want {
-					sig = "over-admission:limit-concurrent"
-				}
-				o.Hit(c.Hit{Suite: "stress", Index: round, Signature: sig,
-					Demanded: fmt.Sprintf("exactly %d of %d concurrent requests of one group proceed in one window", want, calls),
-					Observed: fmt.Sprintf("%d proceeded", passed[ki]),
-					Case:     map[string]any{"profile": profs[ki], "calls": calls, "workers": workers}})
-			}
-		}
+		runStress(o, k, round)
 	}
 }
 
@@ -907,8 +935,13 @@ func main() {
 			var k PluginCase
 			must(json.Unmarshal(raw, &k))
 			runPlugin(o, k)
+		case "stress":
+			var k StressCase
+			must(json.Unmarshal(raw, &k))
+			runStress(o, k, 0)
 		default:
-			fmt.Fprintln(os.Stderr, "replay of suite", suite, "is not supported (monitor-only stress)")
+			fmt.Fprintln(os.Stderr, "unknown suite in replay file:", suite)
+			os.Exit(2)
 		}
 		o.Finish()
 		return
@@ -917,11 +950,11 @@ func main() {
 	genLimit(o)
 	genHistExhaustive(o)
 	rh := o.Rng.Fork(2)
-	for i := 0; i < o.Scale(700, 20000, 12000); i++ {
+	for i := 0; i < o.Scale(700, 12000, 12000); i++ {
 		runHist(o, genHistCase(rh))
 	}
 	rp := o.Rng.Fork(3)
-	for i := 0; i < o.Scale(500, 12000, 8000); i++ {
+	for i := 0; i < o.Scale(500, 6000, 8000); i++ {
 		runPlugin(o, genPluginCase(rp))
 	}
 	stress(o)
